@@ -66,6 +66,9 @@ class TagFlow:
                     out |= local[head]
                 for i in range(1, len(parts) + 1):
                     out |= state.get(".".join(parts[:i]), EMPTY)
+                # hooks may tag an inner attribute (x.field.method)
+                if isinstance(expr.value, ast.Attribute):
+                    out |= rec(expr.value)
                 return out
             return rec(expr.value)
         if isinstance(expr, (ast.ListComp, ast.SetComp, ast.GeneratorExp,
@@ -87,6 +90,15 @@ class TagFlow:
                 for c in gen.ifs:
                     pass  # conditions do not flow into the value
             return out
+        if isinstance(expr, ast.IfExp):
+            t = self.cfg._truth(expr.test)
+            if t is True:
+                return rec(expr.body)
+            if t is False:
+                return rec(expr.orelse)
+            return rec(expr.body) | rec(expr.orelse)
+        if isinstance(expr, ast.NamedExpr):
+            return rec(expr.value)
         if isinstance(expr, ast.Lambda):
             params = {a.arg for a in expr.args.args + expr.args.kwonlyargs}
             loc = dict(local)
@@ -137,6 +149,12 @@ class TagFlow:
     def transfer(self, node: Node, state: State) -> State:
         s = dict(state)
         a = node.ast
+        if a is not None and node.kind in ("stmt", "test", "call") and \
+                not isinstance(a, (ast.FunctionDef, ast.AsyncFunctionDef,
+                                   ast.ClassDef)):
+            for w in ast.walk(a):
+                if isinstance(w, ast.NamedExpr):
+                    self._assign(w.target, self.tags(w.value, s), s)
         if node.kind == "stmt":
             if isinstance(a, ast.Assign):
                 t = self.tags(a.value, s)
